@@ -335,6 +335,9 @@ func init() {
 							}
 						}
 						if g == "edge-glob-dense" || g == "many-globs" || g == "glob-over-many" || g == "triple-glob-boards" || g == "parallel-edges" {
+							if n/30 > 100 {
+								n = 3000 // i.e. 100 after the division: measured 3.2 s at 100 and 36.6 s at 200 objects for `* -> *` (see DESIGN 9.2)
+							}
 							n = n / 30 // quadratic by nature (n^2 edges / n globs × n targets): sizes 1..100 (quick) / 1..333 (thorough); `* -> *` over 1000 objects is 10^6 connections and exceeded the 120 s bound on a loaded machine although it terminates
 							if n < 1 {
 								n = 1
